@@ -43,6 +43,7 @@ import (
 	"github.com/thanos-io/thanos/pkg/block"
 	"github.com/thanos-io/thanos/pkg/block/metadata"
 	"github.com/thanos-io/thanos/pkg/compact"
+	"github.com/thanos-io/thanos/pkg/dedup"
 	"github.com/thanos-io/thanos/pkg/logutil"
 	"github.com/thanos-io/thanos/zzverif/common"
 	cu "github.com/thanos-io/thanos/zzverif/crashutil"
@@ -55,7 +56,8 @@ type sampleIn struct {
 }
 
 type blockIn struct {
-	Group   int        `json:"group,omitempty"` // external label set (compaction group)
+	Group   int        `json:"group,omitempty"`   // external label set (compaction group)
+	Replica string     `json:"replica,omitempty"` // replica label value ("": none)
 	MinT    int64      `json:"min_t"`
 	MaxT    int64      `json:"max_t"`
 	Samples []sampleIn `json:"samples"`
@@ -64,6 +66,7 @@ type blockIn struct {
 type input struct {
 	Blocks   []blockIn `json:"blocks"`
 	Vertical bool      `json:"vertical"`
+	Dedup    bool      `json:"dedup,omitempty"` // compactor with --deduplication.replica-label=replica and the penalty merge function
 	Crashes  []int     `json:"crashes"`
 }
 
@@ -139,8 +142,12 @@ func makeBlock(ctx context.Context, dir string, b blockIn) (ulid.ULID, error) {
 	}
 	id = ids[0]
 	bdir := filepath.Join(dir, id.String())
+	lbls := map[string]string{"cluster": fmt.Sprintf("c%d", b.Group)}
+	if b.Replica != "" {
+		lbls["replica"] = b.Replica
+	}
 	if _, err := metadata.InjectThanos(log.NewNopLogger(), bdir, metadata.Thanos{
-		Labels: map[string]string{"cluster": fmt.Sprintf("c%d", b.Group)}, Downsample: metadata.ThanosDownsample{Resolution: 0}, Source: metadata.TestSource,
+		Labels: lbls, Downsample: metadata.ThanosDownsample{Resolution: 0}, Source: metadata.TestSource,
 	}, nil); err != nil {
 		return id, err
 	}
@@ -148,6 +155,14 @@ func makeBlock(ctx context.Context, dir string, b blockIn) (ulid.ULID, error) {
 		return id, err
 	}
 	return id, nil
+}
+
+func blockLabels(b blockIn) map[string]string {
+	l := map[string]string{"cluster": fmt.Sprintf("c%d", b.Group)}
+	if b.Replica != "" {
+		l["replica"] = b.Replica
+	}
+	return l
 }
 
 type smp struct {
@@ -241,15 +256,20 @@ func selected(ctx context.Context, snap map[string][]byte, delay time.Duration) 
 	return ids, nil
 }
 
-func newCompactor(ctx context.Context, bkt objstore.InstrumentedBucket, dir string, vertical bool) (*compact.BucketCompactor, *compact.Syncer, *block.IgnoreDeletionMarkFilter, error) {
+func newCompactor(ctx context.Context, bkt objstore.InstrumentedBucket, dir string, vertical, dedupReplicas bool) (*compact.BucketCompactor, *compact.Syncer, *block.IgnoreDeletionMarkFilter, error) {
 	logger := log.NewNopLogger()
 	reg := prometheus.NewRegistry()
 	ctr := func() prometheus.Counter { return prometheus.NewCounter(prometheus.CounterOpts{Name: "x"}) }
+	var replicaLabels []string // cmd/thanos/compact.go: --deduplication.replica-label
+	if dedupReplicas {
+		replicaLabels = []string{"replica"}
+		vertical = true
+	}
 	ignoreDeletionMarkFilter := block.NewIgnoreDeletionMarkFilter(logger, bkt, 0, 1)
 	duplicateBlocksFilter := block.NewDeduplicateFilter(1)
 	noCompactMarkerFilter := compact.NewGatherNoCompactionMarkFilter(logger, bkt, 1)
 	metaFetcher, err := block.NewMetaFetcher(nil, 1, bkt, block.NewConcurrentLister(logger, bkt), "", nil, []block.MetadataFilter{
-		ignoreDeletionMarkFilter, duplicateBlocksFilter, noCompactMarkerFilter,
+		ignoreDeletionMarkFilter, block.NewReplicaLabelRemover(logger, replicaLabels), duplicateBlocksFilter, noCompactMarkerFilter,
 	})
 	if err != nil {
 		return nil, nil, nil, err
@@ -258,7 +278,11 @@ func newCompactor(ctx context.Context, bkt objstore.InstrumentedBucket, dir stri
 	if err != nil {
 		return nil, nil, nil, err
 	}
-	comp, err := tsdb.NewLeveledCompactor(ctx, reg, logutil.GoKitLogToSlog(logger), ranges, nil, nil)
+	var mergeFunc storage.VerticalChunkSeriesMergeFunc
+	if dedupReplicas {
+		mergeFunc = dedup.NewChunkSeriesMerger()
+	}
+	comp, err := tsdb.NewLeveledCompactor(ctx, reg, logutil.GoKitLogToSlog(logger), ranges, nil, mergeFunc)
 	if err != nil {
 		return nil, nil, nil, err
 	}
@@ -305,7 +329,24 @@ func run(raw json.RawMessage) (common.Case, error) {
 		num[id.String()] = n
 		return n
 	}
-	var initC []string
+	// block ids in the Coq term are ranks in ULID order (the duplicate filter breaks ties by
+	// ULID); ranks are known only at the end, so terms carry placeholders until then
+	groups := map[string]int{} // compaction group = full external label set (as Thanos.GroupKey)
+	groupOf := func(l map[string]string) int {
+		k := fmt.Sprintf("%s|%s", l["cluster"], l["replica"])
+		if g, ok := groups[k]; ok {
+			return g
+		}
+		g := len(groups)
+		groups[k] = g
+		return g
+	}
+	seenIDs := map[string]bool{}
+	idN := func(id ulid.ULID) string {
+		seenIDs[id.String()] = true
+		return "@@" + id.String() + "@@%N"
+	}
+	var initC, metaC []string
 	for i, b := range in.Blocks {
 		id, err := makeBlock(ctx, filepath.Join(tmp, "src"), b)
 		if err != nil {
@@ -343,10 +384,13 @@ func run(raw json.RawMessage) (common.Case, error) {
 		origTotal += len(s)
 	}
 	initByNum := make([]string, len(in.Blocks))
+	metaByNum := make([]string, len(in.Blocks))
 	for idStr, n := range num {
-		initByNum[n] = common.App("ib", common.N(uint64(n)), smpCoq(samples[idStr]))
+		id := ulid.MustParse(idStr)
+		initByNum[n] = common.App("ib", idN(id), smpCoq(samples[idStr]))
+		metaByNum[n] = common.App("om", idN(id), common.N(uint64(groupOf(blockLabels(in.Blocks[n])))), common.Z(in.Blocks[n].MinT), common.Z(in.Blocks[n].MaxT))
 	}
-	initC = initByNum
+	initC, metaC = initByNum, metaByNum
 
 	// Go-side evaluation of the property on one selection
 	origSet := map[smp]bool{}
@@ -370,6 +414,37 @@ func run(raw json.RawMessage) (common.Case, error) {
 			for _, x := range s {
 				count[x]++
 			}
+		}
+		if in.Dedup {
+			// deduplicated replicas: no series may disappear, nothing may be invented
+			have := map[int]bool{}
+			for x := range count {
+				have[x.S] = true
+			}
+			for x := range origSet {
+				if !have[x.S] {
+					c.GoPred = fmt.Sprintf("%s: series %d of the original blocks is not served", where, x.S)
+					c.Sig = "series-lost"
+					return
+				}
+			}
+			for x := range count {
+				if !origSet[x] {
+					c.GoPred = fmt.Sprintf("%s: served sample (series %d, t %d, v %d) was never written", where, x.S, x.T, x.V)
+					c.Sig = "sample-invented"
+					return
+				}
+			}
+			if replicasIdentical(in.Blocks) {
+				for x := range origSet {
+					if count[x] == 0 {
+						c.GoPred = fmt.Sprintf("%s: sample (series %d, t %d) of identical replicas is not served", where, x.S, x.T)
+						c.Sig = "sample-lost"
+						return
+					}
+				}
+			}
+			return
 		}
 		for x := range origSet {
 			if count[x] == 0 {
@@ -401,7 +476,7 @@ func run(raw json.RawMessage) (common.Case, error) {
 			checkSel(fmt.Sprintf("%s (deletion marks hidden after %s)", where, d), snap, ids, once)
 			var ns []string
 			for _, id := range ids {
-				ns = append(ns, common.N(uint64(numOf(id))))
+				ns = append(ns, idN(id))
 			}
 			out[k] = common.List(ns)
 		}
@@ -458,19 +533,21 @@ func run(raw json.RawMessage) (common.Case, error) {
 				}
 				var src, par []string
 				for _, s := range m.Compaction.Sources {
-					src = append(src, common.N(uint64(numOf(s))))
+					src = append(src, idN(s))
 				}
 				for _, p := range m.Compaction.Parents {
-					par = append(par, common.N(uint64(numOf(p.ULID))))
+					par = append(par, idN(p.ULID))
 				}
-				hop = common.App("HAdd", common.N(uint64(numOf(id))), common.App("mkcb", common.List(src), common.List(par), smpCoq(sm)))
+				grp := groupOf(m.Thanos.Labels)
+				hop = common.App("HAdd", idN(id), common.App("mkcb", common.List(src), common.List(par), smpCoq(sm),
+					common.N(uint64(grp)), common.Z(int64(m.Compaction.Level)), common.Z(m.MinTime), common.Z(m.MaxTime)))
 				visible[idStr] = true
 				adds++
 			case o.Kind == "upload" && rel == metadata.DeletionMarkFilename:
-				hop = common.App("HMark", common.N(uint64(numOf(id))))
+				hop = common.App("HMark", idN(id))
 				marks++
 			case o.Kind == "delete" && rel == block.MetaFilename && o.OK:
-				hop = common.App("HDel", common.N(uint64(numOf(id))))
+				hop = common.App("HDel", idN(id))
 				delete(visible, idStr)
 				dels++
 			default:
@@ -492,7 +569,7 @@ func run(raw json.RawMessage) (common.Case, error) {
 		}
 		rb := cu.NewRecBucket(inner)
 		rb.CrashAt = crash
-		bc, sy, delMarks, err := newCompactor(ctx, rb, compactDir, in.Vertical)
+		bc, sy, delMarks, err := newCompactor(ctx, rb, compactDir, in.Vertical, in.Dedup)
 		if err != nil {
 			return c, err
 		}
@@ -548,11 +625,47 @@ func run(raw json.RawMessage) (common.Case, error) {
 			checkSel(fmt.Sprintf("at quiescence (deletion marks hidden after %s)", d), lastSnap, ids, true)
 		}
 	}
-	c.Coq = common.App("CHist", common.Bool(in.Vertical), common.List(initC), s0, s1, common.List(steps), common.Bool(quiescent))
+	term := common.App("CHist", common.Bool(in.Vertical), common.List(metaC), common.List(initC), s0, s1, common.List(steps), common.Bool(quiescent))
+	if in.Dedup {
+		term = common.App("CHistD", common.Bool(replicasIdentical(in.Blocks)), common.List(metaC), common.List(initC), s0, s1, common.List(steps), common.Bool(quiescent))
+	}
+	var all []string
+	for id := range seenIDs {
+		all = append(all, id)
+	}
+	sort.Strings(all) // ULID strings sort like ULID.Compare
+	for rank, id := range all {
+		term = strings.ReplaceAll(term, "@@"+id+"@@", strconv.Itoa(rank))
+	}
+	c.Coq = term
 	c.Class = fmt.Sprintf("blocks=%d vertical=%v crashes=%d", len(in.Blocks), in.Vertical, crashes)
+	if in.Dedup {
+		c.Class = fmt.Sprintf("blocks=%d replicas-dedup exact=%v crashes=%d", len(in.Blocks), replicasIdentical(in.Blocks), crashes)
+	}
 	c.Nontrivial = adds >= 1 && crashes >= 1
 	c.Obs = map[string]any{"calls": obs, "blocks_added": adds, "marked": marks, "deleted": dels, "quiescent": quiescent, "original_samples": origTotal}
 	return c, nil
+}
+
+// replicasIdentical: for every time slot the replicas' blocks carry the same samples
+func replicasIdentical(bs []blockIn) bool {
+	bySlot := map[string]string{}
+	for _, b := range bs {
+		ss := append([]sampleIn(nil), b.Samples...)
+		sort.Slice(ss, func(i, j int) bool {
+			if ss[i].S != ss[j].S {
+				return ss[i].S < ss[j].S
+			}
+			return ss[i].T < ss[j].T
+		})
+		k := fmt.Sprintf("%d|%d", b.Group, b.MinT)
+		v := fmt.Sprint(ss)
+		if old, ok := bySlot[k]; ok && old != v {
+			return false
+		}
+		bySlot[k] = v
+	}
+	return true
 }
 
 // ---- generator ----
@@ -615,6 +728,10 @@ func gen(r *rand.Rand, tier string, n int) []any {
 	var out []any
 	maxBlocks := 7
 	for len(out) < n {
+		if r.Intn(5) == 0 {
+			out = append(out, genDedup(r))
+			continue
+		}
 		vertical := r.Intn(3) == 0
 		blocks := genBlocks(r, vertical, maxBlocks)
 		if len(blocks) < 3 && r.Intn(4) > 0 {
@@ -647,6 +764,51 @@ func gen(r *rand.Rand, tier string, n int) []any {
 		out = append(out, in)
 	}
 	return out
+}
+
+// genDedup: two replicas of one stream (aligned block ranges), identical samples or the second
+// replica shifted by a few milliseconds and with holes; compacted with replica deduplication.
+func genDedup(r *rand.Rand) input {
+	in := input{Dedup: true, Vertical: true}
+	nslots := 2 + r.Intn(4)
+	identical := r.Intn(2) == 0
+	off := int64(1 + r.Intn(20))
+	for slot := 0; slot < nslots; slot++ {
+		mint := int64(slot) * 1000
+		a := blockIn{MinT: mint, MaxT: mint + 1000, Replica: "a"}
+		b := blockIn{MinT: mint, MaxT: mint + 1000, Replica: "b"}
+		ns := 1 + r.Intn(2)
+		for s := 0; s < ns; s++ {
+			for j := int64(0); j < 10; j++ {
+				t := mint + j*100
+				if r.Intn(8) > 0 {
+					a.Samples = append(a.Samples, sampleIn{S: s, T: t, V: int64(s)*100000 + t})
+				}
+				if identical {
+					continue
+				}
+				if r.Intn(8) > 0 && t+off < mint+1000 {
+					b.Samples = append(b.Samples, sampleIn{S: s, T: t + off, V: int64(s)*100000 + t + off})
+				}
+			}
+		}
+		if len(a.Samples) == 0 {
+			a.Samples = []sampleIn{{S: 0, T: mint, V: mint}}
+		}
+		if identical {
+			b.Samples = append([]sampleIn(nil), a.Samples...)
+		} else if len(b.Samples) == 0 {
+			b.Samples = []sampleIn{{S: 0, T: mint + off, V: mint + off}}
+		}
+		in.Blocks = append(in.Blocks, a, b)
+	}
+	switch r.Intn(4) {
+	case 1:
+		in.Crashes = []int{r.Intn(20)}
+	case 2:
+		in.Crashes = []int{r.Intn(20), r.Intn(12)}
+	}
+	return in
 }
 
 func main() {
